@@ -9,6 +9,7 @@ import (
 	cfgapi "github.com/containers/nri-plugins/pkg/apis/config/v1alpha1/resmgr/policy/topologyaware"
 	"github.com/containers/nri-plugins/pkg/resmgr/cache"
 	libmem "github.com/containers/nri-plugins/pkg/resmgr/lib/memory"
+	v1 "k8s.io/api/core/v1"
 )
 
 func (w *verifWorld) libmemEmpty() bool {
@@ -231,4 +232,46 @@ func VerifC12TAMemoryPreserveUnderPressure() {
 	}
 	verifCover("mem-preserve-pressure-done")
 	verifAssert("C12.ta.memory-preserve-mems-unchanged", c0.mems == before)
+}
+
+// VerifC13TAReinstateAfterRelease: a history with a release before the
+// reconfiguration (two Guaranteed 2-CPU containers, the first one released,
+// then a Burstable container of symbolic size that may fill a pool exactly):
+// re-applying the unchanged configuration must reinstate every grant verbatim,
+// i.e. change no container's resources, also when a pool is exactly full.
+func VerifC13TAReinstateAfterRelease() {
+	machine := []int{5, 0}[verifChoice("machine", 2)] // single-pool machine, 3-pool machine
+	_, _, ncpu := verifMachine(machine)
+	allowed, reserved, isolated := verifSymbolicConstraints(ncpu, 0)
+	cfg := verifTAConfig("cpuset:0")
+	w := verifNewPolicy(machine, allowed, reserved, isolated, cfg)
+	mk := func(qos v1.PodQOSClass, m int64) *verifContainer {
+		k := len(w.ctrs)
+		id := "c" + string(rune('0'+k))
+		pod := &verifPod{name: "p" + id, namespace: "default", qos: qos, annotations: map[string]string{}}
+		c := &verifContainer{id: id, name: id, pod: pod, milliCPU: m, state: cache.ContainerStateCreated}
+		w.ctrs = append(w.ctrs, c)
+		w.cache.containers[id] = c
+		return c
+	}
+	x := mk(v1.PodQOSGuaranteed, 2000)
+	y := mk(v1.PodQOSGuaranteed, 2000)
+	if w.p.AllocateResources(x) != nil || w.p.AllocateResources(y) != nil {
+		return
+	}
+	w.p.ReleaseResources(x)
+	x.gone = true
+	m := verifNondetInt64("fill")
+	verifAssume(verifAnd(m >= 0, m <= 7000))
+	z := mk(v1.PodQOSBurstable, m)
+	if w.p.AllocateResources(z) != nil {
+		verifCover("fill-refused")
+		return
+	}
+	verifCover("filled")
+	views, supplies := w.containerViews(), w.supplySnapshot()
+	err := w.p.Reconfigure(verifTAConfig("cpuset:0"))
+	verifAssert("C13.ta.unchanged-config-accepted", err == nil)
+	verifAssert("C13.ta.container-resources-unchanged", verifSameViews(views, w.containerViews()))
+	verifAssert("C13.ta.pool-capacities-unchanged", supplies.same(w.supplySnapshot()))
 }
